@@ -93,3 +93,28 @@ Example C18_answers_of_overlapping_dequeues_in_either_order :
   let s := zq_run 2 (fun _ => 0) cx_evs in
   enqueued_of (ZLOG s) = [10; 20] /\ dequeued_of (ZLOG s) = [20; 10].
 Proof. destruct zcq_log_order_fifo_refuted as (_ & H1 & H2 & _). split; assumption. Qed.
+
+(* ---- the same for the stand-alone zero-copy FULL-SYNC queue (Alloc/ZcqPayloadFS.v; the abstract machine and its invariants are those of the
+   atomic queue, only the concrete case analysis is new): conservation, FIFO of the answers with one dequeuing thread, permutation of the
+   enqueued prefix with several ---- *)
+From RM Require ZcqPayloadFS.
+Theorem C18_zero_copy_full_sync_queue_slots_conserved :
+  forall N, 0 < N -> forall p evs, let s := ZcqPayloadFS.zqf_run N p evs in
+  exists ths, NoDup ths /\ (forall t, ~ In t ths -> ZcqPayloadFS.enq_transit s t = [] /\ ZcqPayloadFS.deq_transit s t = []) /\
+    Permutation (ids_upto N) (ZcConserveFS.finring (ZcqPayloadFS.FA s) ++ ZcConserveFS.finring (ZcqPayloadFS.QB s) ++
+                              flat_map (ZcqPayloadFS.enq_transit s) ths ++ flat_map (ZcqPayloadFS.deq_transit s) ths).
+Proof. exact ZcqPayloadFS.zcqf_slots_conserved. Qed.
+Print Assumptions C18_zero_copy_full_sync_queue_slots_conserved.
+
+Theorem C18_zero_copy_full_sync_queue_fifo_single_consumer :
+  forall N, 0 < N -> forall p c evs, (forall t, In (ZStart t ZDeq) evs -> t = c) -> let s := ZcqPayloadFS.zqf_run N p evs in
+  dequeued_of (ZcqPayloadFS.ZLOG s) = firstn (length (dequeued_of (ZcqPayloadFS.ZLOG s))) (enqueued_of (ZcqPayloadFS.ZLOG s)).
+Proof. exact ZcqPayloadFS.zcqf_fifo_single_consumer. Qed.
+Print Assumptions C18_zero_copy_full_sync_queue_fifo_single_consumer.
+
+Theorem C18_zero_copy_full_sync_queue_dequeued_is_the_enqueued_prefix :
+  forall N, 0 < N -> forall p evs, let s := ZcqPayloadFS.zqf_run N p evs in
+  (forall t, ZcqPayloadFS.deq_pending s t = []) ->
+  Permutation (dequeued_of (ZcqPayloadFS.ZLOG s)) (firstn (Z.to_nat (fhead (ZcqPayloadFS.QB s))) (enqueued_of (ZcqPayloadFS.ZLOG s))).
+Proof. exact ZcqPayloadFS.zcqf_dequeued_permutation. Qed.
+Print Assumptions C18_zero_copy_full_sync_queue_dequeued_is_the_enqueued_prefix.
